@@ -80,8 +80,9 @@ def engine_concrete(prog, c, values):
     cap = ctx.ghost.get("capture")
     if cap is None:
         return {"unsupported": "no capture (requires false concretely?)"}
+    failed = sorted(set(o.name[len(c.name) + 1:] for o in ctx.obligations if o.status != "unsat"))
     return {"exc": cap["exc"], "result": _plain(it, cap["result"]),
-            "view": [(n, _plain(it, v)) for n, v in cap.get("view", [])]}
+            "view": [(n, _plain(it, v)) for n, v in cap.get("view", [])], "failed": failed}
 
 
 def _plain(it, v):
@@ -140,7 +141,12 @@ for values in job["models"]:
     if c.view:
         try: view = [(n, plain(v)) for n, v in rn.get_spec(c.view)(vals[order[0]])]
         except Exception as e: view = [("view_error", repr(e))]
-    out.append({"exc": exc, "result": plain(res), "view": view})
+    try:
+        verdict = rn.run_contract(c, values, None)
+        failed = sorted(verdict.get("failed", [])) if "error" not in verdict else ["<native error>"]
+    except Exception as e:
+        failed = ["<native crash>"]
+    out.append({"exc": exc, "result": plain(res), "view": view, "failed": failed})
 json.dump(out, open(sys.argv[2], "w"))
 ''' % VERIF
 
@@ -158,7 +164,7 @@ def main():
     for modname in registry.PROPERTIES[prop]["modules"]:
         mod = importlib.import_module(modname)
         for c in getattr(mod, "CONTRACTS", []):
-            if prop not in c.props or not c.replayable or not c.view or c.loops:
+            if prop not in c.props or not c.replayable or c.loops:
                 continue
             try:
                 models = models_for(prog, c, n)
@@ -191,6 +197,11 @@ def main():
                 ve = {k: v for k, v in ev["view"]}
                 vn = {k: v for k, v in nv["view"]}
                 diff = [k for k in ve if k in vn and ve[k] != vn[k] and "<object>" not in str(ve[k]) + str(vn[k])]
+                # the contract's verdict must agree too (native 'refines' = engine outcome/result/state)
+                ef = set("refines" if x in ("outcome", "result", "state", "refines_one_of") else x for x in ev.get("failed", []))
+                nf = set(nv.get("failed", []))
+                if ef != nf:
+                    diff = diff + ["verdict: engine %s native %s" % (sorted(ef), sorted(nf))]
                 if not same or diff:
                     disagreements += 1
                     if len(details) < 10:
